@@ -355,9 +355,24 @@ fn scan_case(t: &mut Tally, case: &Case, label: &str) {
     // correct signature: then only a verbatim occurrence of the full lower-case signature (which it did not send) counts
     let mut full_only: Option<Vec<u8>> = None;
     let mut log_only: Option<Vec<u8>> = None;
+    // a request refused as stale or post-dated never gets as far as the comparison in the reference model either: what its
+    // correct signature is follows from the same request judged with the server clock at the request's own instant
+    let mut sig_source = (j.analysis.expected_sig.clone(), j.analysis.presented_sig.clone());
+    if refused && sig_source.0.is_none() && matches!(j.analysis.stage(), Stage::Expired | Stage::NotYet) {
+        if let Some(t0) = j.analysis.t {
+            let mut c2 = case.clone();
+            c2.cfg.now = t0;
+            if let Some(j2) = judge(&c2, &rec) {
+                sig_source = (j2.analysis.expected_sig.clone(), j2.analysis.presented_sig.clone());
+                if sig_source.0.is_some() {
+                    t.count("stale_or_post_dated_refusals_whose_correct_signature_is_known");
+                }
+            }
+        }
+    }
     if refused {
-        if let Some(sig) = &j.analysis.expected_sig {
-            let presented = j.analysis.presented_sig.clone().unwrap_or_default();
+        if let Some(sig) = &sig_source.0 {
+            let presented = sig_source.1.clone().unwrap_or_default();
             let shares_window = presented.len() >= W && sig.len() >= W && presented.as_bytes().windows(W).any(|w| sig.as_bytes().windows(W).any(|x| x == w));
             if presented.contains(sig.as_str()) {
                 // the client sent the whole correct signature (plus decoration) and is refused for another reason (stale,
@@ -632,6 +647,7 @@ pub fn run(tier: Tier) -> i32 {
     ctx.gate("cases with a 2–7 character secret (searched for as a whole)", tally.get("short_secrets_of_rare_characters"), tier.n(10_000, 300_000));
     ctx.gate("refusals of a prefix / one-digit-off variant of the correct signature scanned", tally.get("near_miss_of_correct_signature_refused"), tier.n(500, 10_000));
     ctx.gate("requests refused for another reason although their signature is correct (stale, scope, requirements, provider failure)", tally.get("decorated_correct_signature_refused"), tier.n(2000, 60_000));
+    ctx.gate("stale / post-dated refusals whose correct signature the oracle knows", tally.get("stale_or_post_dated_refusals_whose_correct_signature_is_known"), tier.n(1000, 30_000));
     ctx.gate("public key / request / response types formatted", tally.get("public_key_types_formatted"), tier.n(10_000, 300_000));
     ctx.gate("log records at debug level or above judged", tally.get("log_records_judged/DEBUG") + tally.get("log_records_judged/INFO") + tally.get("log_records_judged/WARN") + tally.get("log_records_judged/ERROR"), tier.n(100, 1000));
     let rep = Report {
